@@ -4,7 +4,8 @@ import (
 	"fmt"
 	"go/token"
 	"go/types"
-	"os"
+	"path/filepath"
+	"sort"
 	"strings"
 
 	"golang.org/x/tools/go/ssa"
@@ -17,7 +18,7 @@ import (
 // per incoming edge, lengths, clamps, range indices).
 
 func init() {
-	register("P9s", "every slice expression and every index with a non-trivial bound in the filter package is within bounds on every path (0 <= lo <= hi <= len)", runP9s)
+	register("P9s", "every slice expression and every index with a non-trivial bound in hand-written code (everything but the ragel/goyacc/stringer tables and parser.Scan) is within bounds on every path (0 <= lo <= hi <= len)", runP9s)
 }
 
 // term is value+offset; a nil value is the constant offset alone.
@@ -191,6 +192,7 @@ type point struct {
 	blk   *ssa.BasicBlock
 	extra []fact
 	ne    []term
+	eq    []term // v == off, established by the edge
 }
 
 func (pr *prover) factsAt(pt point) ([]fact, []term) {
@@ -245,14 +247,35 @@ func (pr *prover) lowerBound(v ssa.Value, pt point, depth int) (int64, bool) {
 	switch x := v.(type) {
 	case virtualLen:
 		upd(0)
+	case *ssa.BinOp:
+		// x % n has the sign of x
+		if x.Op == token.REM && pr.nonNegAt(x.X, pt) {
+			upd(0)
+		}
+	case *ssa.Lookup:
+		if nonNegMapType(pr.p, x.X.Type()) {
+			upd(0)
+		}
 	case *ssa.Call:
 		if cn := an.CallName(&x.Call); strings.HasPrefix(cn, "strings.Index") || strings.HasPrefix(cn, "strings.LastIndex") {
 			upd(-1) // documented: an index into the string, or -1
+		}
+		if cn := an.CallName(&x.Call); strings.HasPrefix(cn, "sort.Search") {
+			upd(0) // documented: an index in [0, n]
+		}
+		if lx := lenOperand(x); lx != nil {
+			upd(0)
+			if atLeastOne(lx) {
+				upd(1)
+			}
 		}
 		if _, lo, ok := indexHelper(pr.p, x); ok {
 			upd(lo)
 		}
 	case *ssa.Extract:
+		if lk, ok := x.Tuple.(*ssa.Lookup); ok && x.Index == 0 && nonNegMapType(pr.p, lk.X.Type()) {
+			upd(0)
+		}
 		if c, ok := x.Tuple.(*ssa.Call); ok && x.Index == 1 {
 			if cn := an.CallName(&c.Call); cn == "unicode/utf8.DecodeRuneInString" || cn == "unicode/utf8.DecodeLastRuneInString" {
 				upd(0) // documented: width in bytes, 0..len(s)
@@ -473,6 +496,78 @@ func (pr *prover) le(a, b term, pt point, depth int, seen map[[2]ssa.Value]bool)
 			}
 		}
 	}
+	// a constant against a length that is a known constant at this point
+	if a.v == nil && b.v != nil {
+		if x := lenOperand(b.v); x != nil {
+			if n, ok := pr.constLenAt(x, pt, 0, map[ssa.Value]bool{}); ok && a.off <= n+b.off {
+				return true
+			}
+		}
+	}
+	// sort.SearchStrings/Ints/Float64s(a, x) <= len(a); sort.Search(n, f) <= n
+	if c := an.CallOf(a.v); c != nil && b.v != nil {
+		switch an.CallName(c) {
+		case "sort.SearchStrings", "sort.SearchInts", "sort.SearchFloat64s":
+			if lx := lenOperand(b.v); lx != nil && eqVal(lx, c.Args[0]) && a.off <= b.off {
+				return true
+			}
+		case "sort.Search":
+			nt := norm(c.Args[0])
+			if nt.v != nil && eqVal(nt.v, b.v) && a.off+0 <= b.off-nt.off+0 {
+				return true
+			}
+		}
+	}
+	// a constant against a length with a documented minimum (strings.Split with a non-empty separator)
+	if a.v == nil && b.v != nil {
+		if lx := lenOperand(b.v); lx != nil && atLeastOne(lx) && a.off <= 1+b.off {
+			return true
+		}
+	}
+	// reflect: fv.Call(args) returns fv.Type().NumOut() values
+	if a.v == nil && b.v != nil {
+		if x := lenOperand(b.v); x != nil {
+			if c := an.CallOf(x); c != nil && an.CallName(c) == "(reflect.Value).Call" {
+				found := false
+				an.EachInstr(pt.blk.Parent(), func(in ssa.Instruction) {
+					nc, ok := in.(*ssa.Call)
+					if found || !ok || !nc.Call.IsInvoke() || nc.Call.Method.Name() != "NumOut" {
+						return
+					}
+					if !(isTypeOf(nc.Call.Value, c.Args[0]) || isTypeOfAny(nc.Call.Value, c.Args[0])) {
+						return
+					}
+					if l, ok := pr.lowerBound(nc, pt, depth+1); ok && a.off <= l+b.off {
+						found = true
+					}
+				})
+				if found {
+					return true
+				}
+			}
+		}
+	}
+	// x % n <= n - 1 when n > 0 (and x % n >= 0 when x >= 0: lowerBound)
+	if bo, ok := a.v.(*ssa.BinOp); ok && bo.Op == token.REM && b.v != nil {
+		nt := norm(bo.Y)
+		if nt.v != nil && eqVal(nt.v, b.v) && a.off <= b.off-nt.off+1 {
+			if l, ok := pr.lowerBound(nt.v, pt, depth+1); ok && l+nt.off >= 1 {
+				return true
+			}
+			if positiveLen(pr.p, nt.v) && nt.off == 0 {
+				return true
+			}
+		}
+	}
+	// the keys of a map are as many as its length: len(rv.MapKeys()) == rv.Len(), also through a module
+	// function that returns the (reordered) key list of its argument
+	if a.v != nil && b.v != nil {
+		if mk := mapKeysOf(pr.p, lenOperand(a.v)); mk != nil {
+			if c := an.CallOf(b.v); c != nil && an.CallName(c) == "(reflect.Value).Len" && sameRV(c.Args[0], mk) && a.off <= b.off {
+				return true
+			}
+		}
+	}
 	// structure of b
 	switch y := b.v.(type) {
 	case *ssa.Phi:
@@ -540,9 +635,33 @@ func lenOf(x ssa.Value) (term, bool) {
 func runP9s(p *an.Prog, r *an.Result) {
 	roles := GetRoles(p)
 	pr := &prover{p: p, nn: &nonNeg{p: p, memo: map[*ssa.Function]int{}}}
+	outOfScope := map[string]int{}
+	defer func() {
+		var ks []string
+		for k, n := range outOfScope {
+			ks = append(ks, fmt.Sprintf("%s (%d functions)", k, n))
+		}
+		sort.Strings(ks)
+		r.Notef("P9s: outside the rule's reach: %s", strings.Join(ks, "; "))
+	}()
+	// the block parser's frame stack: that pop finds a frame is G1's business (pop only past
+	// CanHaveParent(current block) == true, which is false while no block is open)
+	var stackSh *stackShape
+	if pt := p.Func("(parser.Config).parseTokens"); pt != nil {
+		if sh := findStackShape(pt); sh.problem == "" {
+			stackSh = sh
+		}
+	}
+	isFrameStack := func(fn *ssa.Function, base ssa.Value) bool {
+		return stackSh != nil && fn == stackSh.popFn && types.Identical(base.Type(), types.NewSlice(stackSh.frameT))
+	}
 	for _, fn := range p.Funcs {
 		o := an.Outermost(fn)
-		if o.Pkg == nil || (an.RelPkg(o.Pkg.Pkg.Path()) != "filters" && os.Getenv("LV_P9_ALL") == "") || isMainPkg(fn) {
+		if o.Pkg == nil || isMainPkg(fn) {
+			continue
+		}
+		if why := p9OutOfScope(p, fn); why != "" {
+			outOfScope[why]++
 			continue
 		}
 		name := roles.Label(fn)
@@ -597,6 +716,11 @@ func runP9s(p *an.Prog, r *an.Result) {
 						return
 					}
 				}
+				if isFrameStack(fn, base) {
+					r.Counts["bound obligations"]++
+					r.OK(name, "frame stack [:len-1]", an.InstrPos(in), "the pop of the block parser's frame stack; rule G1 shows it is reached only when a block is open, i.e. the stack is not empty")
+					return
+				}
 				ln := lenTermOf(base)
 				lo, hi := term{nil, 0}, ln
 				if x.Low != nil {
@@ -637,9 +761,24 @@ func runP9s(p *an.Prog, r *an.Result) {
 				if _, ok := base.Type().Underlying().(*types.Array); ok {
 					return
 				}
+				if isFrameStack(fn, base) {
+					r.Counts["bound obligations"]++
+					r.OK(name, "frame stack [len-1]", an.InstrPos(in), "the pop of the block parser's frame stack; rule G1 shows it is reached only when a block is open, i.e. the stack is not empty")
+					return
+				}
 				if sortContract(p, fn, base, idx) {
 					r.Counts["bound obligations"]++
 					r.OK(name, describe(p, base)+"["+describe(p, idx)+"]: sort.Interface contract", an.InstrPos(in), "Less/Swap of a sort.Interface whose Len is the length of this very field: package sort calls them with 0 <= i, j < Len()")
+					return
+				}
+				if sliceFuncContract(fn, base, idx) {
+					r.Counts["bound obligations"]++
+					r.OK(name, describe(p, base)+"["+describe(p, idx)+"]: sort.Slice contract", an.InstrPos(in), "the less function handed to sort.Slice(x, less) indexes x itself: package sort calls it with 0 <= i, j < len(x)")
+					return
+				}
+				if why := iterContract(p, fn, base, idx); why != "" {
+					r.Counts["bound obligations"]++
+					r.OK(name, describe(p, base)+"["+describe(p, idx)+"]: Len/Index contract", an.InstrPos(in), why)
 					return
 				}
 				it := norm(idx)
@@ -669,11 +808,115 @@ func (v virtualLen) Pos() token.Pos                { return v.x.Pos() }
 // sort.Interface, idx is one of its int parameters and base is the receiver
 // field whose length the type's Len method returns.
 func sortContract(p *an.Prog, fn *ssa.Function, base, idx ssa.Value) bool {
-	if fn.Signature.Recv() == nil || (fn.Name() != "Less" && fn.Name() != "Swap") {
+	// a local helper of Less/Swap: func(i int) that every call hands one of the method's own
+	// index parameters, and that reads the captured receiver
+	if par := fn.Parent(); par != nil && par.Signature.Recv() != nil && (par.Name() == "Less" || par.Name() == "Swap") && len(par.Params) == 3 {
+		ip, ok := idx.(*ssa.Parameter)
+		if !ok {
+			return false
+		}
+		k := -1
+		for i, fp := range fn.Params {
+			if fp == ip {
+				k = i
+			}
+		}
+		if k < 0 {
+			return false
+		}
+		calls, okCalls := 0, true
+		var mcs []*ssa.MakeClosure
+		an.EachInstr(par, func(in ssa.Instruction) {
+			if mc, ok := in.(*ssa.MakeClosure); ok && mc.Fn == ssa.Value(fn) {
+				mcs = append(mcs, mc)
+			}
+		})
+		if len(mcs) != 1 || mcs[0].Referrers() == nil {
+			return false
+		}
+		for _, u := range *mcs[0].Referrers() {
+			switch x := u.(type) {
+			case *ssa.DebugRef:
+			case *ssa.Call:
+				if x.Call.Value != ssa.Value(mcs[0]) || k >= len(x.Call.Args) || (x.Call.Args[k] != ssa.Value(par.Params[1]) && x.Call.Args[k] != ssa.Value(par.Params[2])) {
+					okCalls = false
+				}
+				calls++
+			default:
+				okCalls = false // the helper escapes
+			}
+		}
+		if !okCalls || calls == 0 {
+			return false
+		}
+		// base: a field path from the captured receiver; compare with Len's path
+		fa, ok := baseFieldAddr(base)
+		if !ok {
+			return false
+		}
+		fv, ok := fa.X.(*ssa.FreeVar)
+		if !ok {
+			return false
+		}
+		cell, ok := cellOfFreeVar(par, fn, fv).(*ssa.Alloc)
+		if !ok {
+			return false
+		}
+		if st := an.Stores(cell); len(st) != 1 || st[0] != ssa.Value(par.Params[0]) {
+			return false
+		}
+		lenFn := methodImpl(p, par.Signature.Recv().Type(), "Len")
+		if lenFn == nil || lenFn.Blocks == nil {
+			return false
+		}
+		okLen := false
+		an.EachInstr(lenFn, func(in ssa.Instruction) {
+			if ret, ok := in.(*ssa.Return); ok && len(ret.Results) == 1 {
+				if x := lenOperand(ret.Results[0]); x != nil {
+					if lfa, ok := baseFieldAddr(x); ok && lfa.Field == fa.Field && recvOf(lenFn, lfa.X) {
+						okLen = true
+					}
+					if f, ok := x.(*ssa.Field); ok && f.Field == fa.Field && recvOf(lenFn, f.X) {
+						okLen = true
+					}
+				}
+			}
+		})
+		return okLen
+	}
+	if fn.Signature.Recv() == nil {
 		return false
 	}
 	par, ok := idx.(*ssa.Parameter)
-	if !ok || len(fn.Params) != 3 || (par != fn.Params[1] && par != fn.Params[2]) {
+	if !ok {
+		return false
+	}
+	if fn.Name() != "Less" && fn.Name() != "Swap" {
+		// a helper method of the same type that Less/Swap hand one of their own indices and their own receiver
+		k := -1
+		for i, fp := range fn.Params {
+			if fp == par && i > 0 {
+				k = i
+			}
+		}
+		sites := callSitesOf(p, fn)
+		if k < 0 || len(sites) == 0 {
+			return false
+		}
+		for _, cs := range sites {
+			caller := cs.Parent()
+			if caller.Signature.Recv() == nil || (caller.Name() != "Less" && caller.Name() != "Swap") || len(caller.Params) != 3 ||
+				!types.Identical(caller.Signature.Recv().Type(), fn.Signature.Recv().Type()) {
+				return false
+			}
+			if a := cs.Call.Args[k]; a != ssa.Value(caller.Params[1]) && a != ssa.Value(caller.Params[2]) {
+				return false
+			}
+			if !recvOf(caller, cs.Call.Args[0]) {
+				return false
+			}
+		}
+	} else if len(fn.Params) != 3 || (par != fn.Params[1] && par != fn.Params[2]) {
 		return false
 	}
 	rt := fn.Signature.Recv().Type()
@@ -891,4 +1134,496 @@ func indexHelper(p *an.Prog, v ssa.Value) (ssa.Value, int64, bool) {
 		}
 	}
 	return nil, 0, false
+}
+
+// p9OutOfScope names the reason a function's index arithmetic is not examined, or "".
+func p9OutOfScope(p *an.Prog, fn *ssa.Function) string {
+	o := an.Outermost(fn)
+	file := filepath.Base(p.Fset.Position(an.FuncPos(o)).Filename)
+	switch {
+	case file == "y.go" || file == "yaccpar" || file == "expressions.y":
+		return "goyacc-generated parser tables"
+	case file == "scanner.go" && an.RelPkg(o.Pkg.Pkg.Path()) == "expressions" || file == "scanner.rl":
+		return "ragel-generated lexer tables"
+	case strings.HasSuffix(file, "_string.go"):
+		return "stringer-generated tables"
+	case an.FuncName(o) == "parser.Scan":
+		return "parser.Scan indexes by regexp submatch positions (T6, T7, T8 decide its structure; the regexp contract is not modelled)"
+	}
+	return ""
+}
+
+// lenOperand: for a term atom that stands for len(x) - a len call or a virtual length - x.
+func lenOperand(v ssa.Value) ssa.Value {
+	switch x := v.(type) {
+	case virtualLen:
+		return x.x
+	case *ssa.Call:
+		if bi, ok := x.Call.Value.(*ssa.Builtin); ok && bi.Name() == "len" {
+			return x.Call.Args[0]
+		}
+	}
+	return nil
+}
+
+// mapKeysOf: x is rv.MapKeys(), or the result of a module function that returns the key list of
+// its argument rv (possibly sorted in place): rv.
+func mapKeysOf(p *an.Prog, x ssa.Value) ssa.Value {
+	if x == nil {
+		return nil
+	}
+	c := an.CallOf(x)
+	if c == nil {
+		return nil
+	}
+	if an.CallName(c) == "(reflect.Value).MapKeys" {
+		return c.Args[0]
+	}
+	callee := c.StaticCallee()
+	if callee == nil || callee.Blocks == nil || !p.InModule(callee) || len(callee.Params) == 0 {
+		return nil
+	}
+	ok := true
+	n := 0
+	an.EachInstr(callee, func(in ssa.Instruction) {
+		ret, isRet := in.(*ssa.Return)
+		if !isRet {
+			return
+		}
+		n++
+		res := resultsOf(ret)
+		if len(res) != 1 {
+			ok = false
+			return
+		}
+		v := an.Deref(res[0])
+		if u, isU := v.(*ssa.UnOp); isU {
+			// a captured variable with one assignment
+			if al, isAl := u.X.(*ssa.Alloc); isAl {
+				if st := an.Stores(al); len(st) == 1 {
+					v = st[0]
+				}
+			}
+		}
+		kc := an.CallOf(v)
+		if kc == nil || an.CallName(kc) != "(reflect.Value).MapKeys" || kc.Args[0] != ssa.Value(callee.Params[0]) {
+			ok = false
+		}
+	})
+	if !ok || n == 0 {
+		return nil
+	}
+	return c.Args[0]
+}
+
+// positiveLen: v is len(x.f) for a field f that is only ever assigned non-empty values (P10's invariant).
+func positiveLen(p *an.Prog, v ssa.Value) bool {
+	x := lenOperand(v)
+	if x == nil {
+		return false
+	}
+	ok, _ := nonEmptyFieldLen(p, v)
+	return ok
+}
+
+// sliceFuncContract: fn is the function literal handed to sort.Slice / sort.SliceStable as less,
+// idx one of its two parameters, base the very slice that is being sorted (a captured variable
+// with a single assignment, or a captured value).
+func sliceFuncContract(fn *ssa.Function, base, idx ssa.Value) bool {
+	parent := fn.Parent()
+	par, ok := idx.(*ssa.Parameter)
+	if parent == nil || !ok || len(fn.Params) != 2 || (par != fn.Params[0] && par != fn.Params[1]) {
+		return false
+	}
+	// the captured variable behind base
+	var fv *ssa.FreeVar
+	switch x := base.(type) {
+	case *ssa.FreeVar:
+		fv = x
+	case *ssa.UnOp:
+		if f, ok := x.X.(*ssa.FreeVar); ok && x.Op == token.MUL {
+			fv = f
+		}
+	}
+	if fv == nil || len(an.Stores(fv)) > 0 {
+		return false
+	}
+	cell := cellOfFreeVar(parent, fn, fv)
+	if cell == nil {
+		return false
+	}
+	found := false
+	an.EachInstr(parent, func(in ssa.Instruction) {
+		c, ok := in.(*ssa.Call)
+		if !ok || len(c.Call.Args) != 2 {
+			return
+		}
+		if cn := an.CallName(&c.Call); cn != "sort.Slice" && cn != "sort.SliceStable" {
+			return
+		}
+		mc, ok := c.Call.Args[1].(*ssa.MakeClosure)
+		if !ok || mc.Fn != ssa.Value(fn) {
+			return
+		}
+		x := an.StripIface(c.Call.Args[0])
+		if mi, ok := x.(*ssa.MakeInterface); ok {
+			x = mi.X
+		}
+		if x == cell {
+			found = true
+		}
+		if al, ok := cell.(*ssa.Alloc); ok && len(an.Stores(al)) == 1 {
+			if u, ok := x.(*ssa.UnOp); ok && u.Op == token.MUL && u.X == cell {
+				found = true
+			}
+			if x == an.Stores(al)[0] {
+				found = true // the load was already resolved to the one value ever stored
+			}
+		}
+	})
+	return found
+}
+
+// iterContract: fn is the Index(i) method of a type that also has Len() returning len of the
+// very field that Index indexes with its parameter, and every caller of Index through the
+// interface is the item loop (B10: i runs 0..Len()-1) or another implementation's Index (B11:
+// the wrappers map an index in range to an index in range). Returns the argument, or "".
+func iterContract(p *an.Prog, fn *ssa.Function, base, idx ssa.Value) string {
+	if fn.Signature.Recv() == nil || fn.Name() != "Index" || len(fn.Params) != 2 || idx != ssa.Value(fn.Params[1]) {
+		return ""
+	}
+	rt := fn.Signature.Recv().Type()
+	lenFn := methodImpl(p, rt, "Len")
+	if lenFn == nil || lenFn.Blocks == nil {
+		return ""
+	}
+	fieldOf := func(f *ssa.Function, v ssa.Value) (int, bool) {
+		for depth := 0; depth < 4; depth++ {
+			switch x := v.(type) {
+			case *ssa.Field:
+				if recvOf(f, x.X) {
+					return x.Field, true
+				}
+				return 0, false
+			case *ssa.UnOp:
+				if fa, ok := x.X.(*ssa.FieldAddr); ok && recvOf(f, fa.X) {
+					return fa.Field, true
+				}
+				return 0, false
+			case *ssa.ChangeType:
+				v = x.X
+			default:
+				return 0, false
+			}
+		}
+		return 0, false
+	}
+	lf, okL := -1, false
+	an.EachInstr(lenFn, func(in ssa.Instruction) {
+		if ret, ok := in.(*ssa.Return); ok && len(ret.Results) == 1 {
+			if x := lenOperand(ret.Results[0]); x != nil {
+				lf, okL = fieldOf(lenFn, x)
+			}
+		}
+	})
+	bf, okB := fieldOf(fn, base)
+	if !okL || !okB || lf != bf {
+		return ""
+	}
+	// callers of Index through an interface this type implements
+	loop := loopFn(p)
+	for _, f := range p.Funcs {
+		if isMainPkg(f) {
+			continue
+		}
+		bad := false
+		an.EachInstr(f, func(in ssa.Instruction) {
+			c, ok := in.(*ssa.Call)
+			if !ok || !c.Call.IsInvoke() || c.Call.Method.Name() != "Index" {
+				return
+			}
+			it, ok := c.Call.Value.Type().Underlying().(*types.Interface)
+			if !ok || !(types.Implements(rt, it) || types.Implements(types.NewPointer(rt), it)) {
+				return
+			}
+			if f == loop || (f.Name() == "Index" && f.Signature.Recv() != nil) {
+				return
+			}
+			bad = true
+		})
+		if bad {
+			return ""
+		}
+	}
+	return "Index(i) of a Len/Index pair whose Len is the length of this very field; it is called only by the item loop (i = 0..Len()-1, B10) and by the modifier wrappers (index maps within range, B11)"
+}
+
+// recvOf: v is the receiver of f (directly, or its spilled copy).
+func recvOf(f *ssa.Function, v ssa.Value) bool {
+	if len(f.Params) == 0 {
+		return false
+	}
+	if v == ssa.Value(f.Params[0]) {
+		return true
+	}
+	if al, ok := v.(*ssa.Alloc); ok {
+		st := an.Stores(al)
+		return len(st) == 1 && st[0] == ssa.Value(f.Params[0])
+	}
+	if u, ok := v.(*ssa.UnOp); ok && u.Op == token.MUL {
+		return recvOf(f, u.X)
+	}
+	return false
+}
+
+// nonNegMapType: t is a named map type of the module with integer elements into which the module
+// only ever stores non-negative values: constants >= 0, or an element of a map of the same type
+// plus a non-negative constant (a counter). Missing keys read as 0, so every element read is >= 0.
+func nonNegMapType(p *an.Prog, t types.Type) bool {
+	n, ok := t.(*types.Named)
+	if !ok || !an.IsModulePkg(n.Obj().Pkg()) {
+		return false
+	}
+	mt, ok := n.Underlying().(*types.Map)
+	if !ok {
+		return false
+	}
+	if b, ok := mt.Elem().Underlying().(*types.Basic); !ok || b.Info()&types.IsInteger == 0 {
+		return false
+	}
+	okAll, stores := true, 0
+	for _, fn := range p.Funcs {
+		an.EachInstr(fn, func(in ssa.Instruction) {
+			mu, isMU := in.(*ssa.MapUpdate)
+			if !isMU || !types.Identical(mu.Map.Type(), t) {
+				return
+			}
+			stores++
+			vt := norm(mu.Value)
+			if vt.v == nil {
+				if vt.off < 0 {
+					okAll = false
+				}
+				return
+			}
+			src := vt.v
+			if ex, isEx := src.(*ssa.Extract); isEx && ex.Index == 0 {
+				src = ex.Tuple
+			}
+			if lk, isLk := src.(*ssa.Lookup); isLk && types.Identical(lk.X.Type(), t) && vt.off >= 0 {
+				return
+			}
+			okAll = false
+		})
+	}
+	return okAll
+}
+
+// baseFieldAddr: v is *(&x.f): the FieldAddr.
+func baseFieldAddr(v ssa.Value) (*ssa.FieldAddr, bool) {
+	u, ok := v.(*ssa.UnOp)
+	if !ok || u.Op != token.MUL {
+		return nil, false
+	}
+	fa, ok := u.X.(*ssa.FieldAddr)
+	return fa, ok
+}
+
+// constLenAt: the length of slice/string x is the constant n at pt.
+func (pr *prover) constLenAt(x ssa.Value, pt point, depth int, seen map[ssa.Value]bool) (int64, bool) {
+	if depth > 6 || seen[x] {
+		return 0, false
+	}
+	seen[x] = true
+	defer delete(seen, x)
+	// a dominating (or edge) test len(x) == n
+	conds := []struct {
+		c ssa.Value
+		t bool
+	}{}
+	for _, g := range an.GuardsAt(pt.blk) {
+		conds = append(conds, struct {
+			c ssa.Value
+			t bool
+		}{g.Cond, g.True})
+	}
+	for _, f := range pt.eq {
+		if lx := lenOperand(f.v); lx != nil && eqVal(lx, x) {
+			return f.off, true
+		}
+	}
+	for _, g := range conds {
+		c, taken := g.c, g.t
+		for {
+			u, ok := c.(*ssa.UnOp)
+			if !ok || u.Op != token.NOT {
+				break
+			}
+			c, taken = u.X, !taken
+		}
+		b, ok := c.(*ssa.BinOp)
+		if !ok || !(b.Op == token.EQL && taken || b.Op == token.NEQ && !taken) {
+			continue
+		}
+		for _, pair := range [][2]ssa.Value{{b.X, b.Y}, {b.Y, b.X}} {
+			if lx := lenOperand(pair[0]); lx != nil && eqVal(lx, x) {
+				if n, ok := an.ConstInt(pair[1]); ok {
+					return n, true
+				}
+			}
+		}
+	}
+	switch v := x.(type) {
+	case *ssa.UnOp:
+		// a package-level slice that is assigned once, in the initialiser, from a literal
+		if g, ok := v.X.(*ssa.Global); ok && v.Op == token.MUL {
+			var lens []int64
+			okAll := true
+			for _, f := range pr.p.Funcs {
+				an.EachInstr(f, func(in ssa.Instruction) {
+					st, isSt := in.(*ssa.Store)
+					if !isSt || st.Addr != ssa.Value(g) {
+						return
+					}
+					if !an.IsInit(f) {
+						okAll = false
+						return
+					}
+					if n, ok := pr.constLenAt(st.Val, point{blk: st.Block()}, depth+1, seen); ok {
+						lens = append(lens, n)
+					} else {
+						okAll = false
+					}
+				})
+			}
+			if okAll && len(lens) == 1 {
+				return lens[0], true
+			}
+		}
+	case *ssa.Const:
+		if s, ok := an.ConstString(v); ok {
+			return int64(len(s)), true
+		}
+	case *ssa.Slice:
+		if al, ok := v.X.(*ssa.Alloc); ok && v.Low == nil && v.High == nil {
+			if arr, ok := al.Type().Underlying().(*types.Pointer).Elem().Underlying().(*types.Array); ok {
+				return arr.Len(), true
+			}
+		}
+	case *ssa.MakeSlice:
+		if n, ok := an.ConstInt(v.Len); ok {
+			return n, true
+		}
+	case *ssa.Call:
+		if bi, ok := v.Call.Value.(*ssa.Builtin); ok && bi.Name() == "append" && len(v.Call.Args) == 2 {
+			n1, ok1 := pr.constLenAt(v.Call.Args[0], pt, depth+1, seen)
+			n2, ok2 := pr.constLenAt(v.Call.Args[1], pt, depth+1, seen)
+			if ok1 && ok2 {
+				return n1 + n2, true
+			}
+		}
+		// a module function all of whose returns have the same constant length
+		if callee := v.Call.StaticCallee(); callee != nil && callee.Blocks != nil && pr.p.InModule(callee) && callee.Signature.Results().Len() == 1 {
+			var n int64
+			cnt := 0
+			okAll := true
+			an.EachInstr(callee, func(in ssa.Instruction) {
+				ret, isRet := in.(*ssa.Return)
+				if !isRet || !okAll {
+					return
+				}
+				m, ok := pr.constLenAt(resultsOf(ret)[0], point{blk: ret.Block()}, depth+1, seen)
+				if !ok || (cnt > 0 && m != n) {
+					okAll = false
+					return
+				}
+				n = m
+				cnt++
+			})
+			if okAll && cnt > 0 {
+				return n, true
+			}
+		}
+	case *ssa.Phi:
+		var n int64
+		first := true
+		for i, e := range v.Edges {
+			if e == ssa.Value(v) {
+				continue
+			}
+			m, ok := pr.constLenAt(e, edgePointEq(v.Block().Preds[i], v.Block()), depth+1, seen)
+			if !ok || (!first && m != n) {
+				return 0, false
+			}
+			n, first = m, false
+		}
+		if !first {
+			return n, true
+		}
+	case *ssa.Parameter:
+		fn := v.Parent()
+		if fn == nil || fn.Object() == nil || fn.Object().Exported() {
+			return 0, false
+		}
+		idx := -1
+		for i, fp := range fn.Params {
+			if fp == v {
+				idx = i
+			}
+		}
+		sites := callSitesOf(pr.p, fn)
+		if idx < 0 || len(sites) == 0 {
+			return 0, false
+		}
+		var n int64
+		for i, cs := range sites {
+			m, ok := pr.constLenAt(cs.Call.Args[idx], point{blk: cs.Block()}, depth+1, seen)
+			if !ok || (i > 0 && m != n) {
+				return 0, false
+			}
+			n = m
+		}
+		return n, true
+	}
+	return 0, false
+}
+
+// edgePointEq is edgePoint plus the equalities len(x) == n that the edge establishes.
+func edgePointEq(pred, succ *ssa.BasicBlock) point {
+	pt := edgePoint(pred, succ)
+	if ifi, ok := pred.Instrs[len(pred.Instrs)-1].(*ssa.If); ok && len(pred.Succs) == 2 && pred.Succs[0] != pred.Succs[1] {
+		taken := pred.Succs[0] == succ
+		c := ifi.Cond
+		for {
+			u, ok := c.(*ssa.UnOp)
+			if !ok || u.Op != token.NOT {
+				break
+			}
+			c, taken = u.X, !taken
+		}
+		if b, ok := c.(*ssa.BinOp); ok && (b.Op == token.EQL && taken || b.Op == token.NEQ && !taken) {
+			for _, pair := range [][2]ssa.Value{{b.X, b.Y}, {b.Y, b.X}} {
+				if n, ok := an.ConstInt(pair[1]); ok {
+					pt.eq = append(pt.eq, term{pair[0], n})
+				}
+			}
+		}
+	}
+	return pt
+}
+
+// atLeastOne: x is strings.Split / SplitN / Fields-like with a documented non-empty result:
+// strings.Split(s, sep) with a constant non-empty separator returns at least one element.
+func atLeastOne(x ssa.Value) bool {
+	c := an.CallOf(x)
+	if c == nil {
+		return false
+	}
+	switch an.CallName(c) {
+	case "strings.Split", "strings.SplitAfter":
+		if sep, ok := an.ConstString(c.Args[1]); ok && sep != "" {
+			return true
+		}
+	}
+	return false
 }
